@@ -256,6 +256,9 @@ def _create_regex(pat: str) -> re.Pattern[str]:
             regex += ".*"
             continue
         regex += re.escape(char)
+    if backslash_last:
+        # a trailing backslash is a literal backslash
+        regex += re.escape("\\")
 
     return re.compile(regex)
 
